@@ -101,6 +101,19 @@ Proof.
   eapply only_mutable_fields; eauto. eapply ruid_fresh_derived; eauto.
 Qed.
 
+(* transactions with several operations (all or nothing): a committed one is the run of its
+   operations with every step committing, a failed one changes nothing — so all theorems above hold
+   for histories of multi-operation transactions, e.g. mint + burn + re-mint of one id in ONE transaction *)
+Theorem C43_transactions : forall m ops,
+  (is_ok (snd (tx_step m ops)) = true ->
+     fst (tx_step m ops) = final m ops /\ forall e, In e (run m ops) -> is_ok (snd e) = true) /\
+  (is_ok (snd (tx_step m ops)) = false -> fst (tx_step m ops) = m).
+Proof. exact tx_step_spec. Qed.
+Example C43_same_transaction_remint :
+  let m := {| r_idtype := TInteger; r_nfields := 4; r_mutable := [(1, 1%nat); (3, 3%nat)]; r_store := [] |} in
+  tx_step m [OMint [((TInteger, 3), [1; 2; 3; 4])]; OBurn [(TInteger, 3)]; OMint [((TInteger, 3), [1; 2; 3; 4])]] = (m, RErr ELocked).
+Proof. vm_compute. reflexivity. Qed.
+
 (* non-vacuity: Integer resource, fields b (index 1) and d (index 3) mutable: mint 1 and 2, burn 1,
    re-mint 1 refused (locked), re-mint 2 refused (exists), string id refused, update of c refused,
    update of b goes through and leaves a, c, d *)
@@ -124,6 +137,7 @@ Print Assumptions C43_mint_kind.
 Print Assumptions C43_id_type.
 Print Assumptions C43_only_mutable_fields.
 Print Assumptions C43_update_spec.
+Print Assumptions C43_transactions.
 Print Assumptions C43_ruid_fresh_derived.
 Print Assumptions C43_ruid_ids_distinct.
 Print Assumptions C43_only_mutable_fields_ruid.
